@@ -7,6 +7,7 @@ import (
 	"go/token"
 	"go/types"
 	"sort"
+	"strconv"
 	"strings"
 
 	"golang.org/x/tools/go/callgraph"
@@ -801,6 +802,38 @@ func ruleEffect2(c *Ctx) {
 				}
 			}
 		}
+	}
+	// uniqueness of minted names: types.TyVar appends the process-wide counter to the caller's base name without a separator,
+	// so the encoding base+counter is injective only if no base name ends in a digit ("t1"+"15" == "t"+"115"); whether two
+	// variables collide would depend on how many variables other compilations have drawn
+	{
+		minted := 0
+		for _, pk := range c.sortedMod() {
+			for _, f := range pk.Syntax {
+				ast.Inspect(f, func(x ast.Node) bool {
+					ce, ok := x.(*ast.CallExpr)
+					if !ok || len(ce.Args) != 1 {
+						return true
+					}
+					o := c.objOf(ce.Fun)
+					if o == nil || qual(o) != "types.TyVar" {
+						return true
+					}
+					v := c.constOf(ce.Args[0])
+					if v == nil || v.Kind() != constant.String {
+						return true
+					}
+					minted++
+					name := constant.StringVal(v)
+					endsDigit := name != "" && name[len(name)-1] >= '0' && name[len(name)-1] <= '9'
+					if endsDigit {
+						c.R.Bad(c.ownerOf(pk, f, ce.Pos()), "type-variable base name "+strconv.Quote(name)+" does not end in a digit", ce.Pos(), "TyVar mints base+counter without a separator: a base that ends in a digit makes distinct (base, counter) pairs spell the same variable name, and which compilation hits the collision depends on how many variables other compilations drew before")
+					}
+					return true
+				})
+			}
+		}
+		c.R.Check(minted >= 5, "types.TyVar", "minted names: base names inspected", token.NoPos, fmt.Sprintf("%d constant base names, none ends in a digit unless reported", minted), "fewer than five constant base names of type variables found")
 	}
 	if atomics+n == 0 {
 		c.R.Bad("yae", "positive control", token.NoPos, "no global write, guarded write or atomic found at all: the scan is not seeing the program")
